@@ -356,6 +356,63 @@ theorem legacy_rows_preserved {κ : Type} (S : Stats κ) (W : Name → Nat → S
       (writeBatch W (batchSims b c) st))
     exact ⟨(List.prefix_append _ _).trans h.1, (List.prefix_append _ _).trans h.2⟩
 
+/-! ### histories of runs into the same output folder -/
+
+/-- a run does not depend on what the output folder held before: `initialize_outputs` clears it -/
+theorem runInFolder_eq_runAll {κ : Type} (S : Stats κ) (W : Name → Nat → SimOut κ) (progs : List Name)
+    (keepAll : Bool) (σ : Sched κ) (n : Nat) (prior : St κ) :
+    runInFolder S W progs keepAll σ n prior = runAll S W progs keepAll σ n ∧
+    runInFolderChecked S W progs keepAll σ n prior = runAllChecked S W progs keepAll σ n := by
+  have h0 : mkProgDirs progs (clearFolder prior) = initSt progs := by simp [mkProgDirs, clearFolder, initSt]
+  unfold runInFolderChecked runInFolder runAllChecked runAll
+  rw [h0]
+  exact ⟨rfl, rfl⟩
+
+theorem runHistory_snoc {κ : Type} (S : Stats κ) (rs : List (RunSpec κ)) (r : RunSpec κ) (prior : St κ) :
+    runHistory S (rs ++ [r]) prior = runInFolder S r.W r.progs r.keepAll r.σ r.n (runHistory S rs prior) := by
+  induction rs generalizing prior with
+  | nil => rfl
+  | cons a rs ih => simp only [List.cons_append, runHistory]; exact ih _
+
+/-- after any history of earlier runs into the same folder, started from any folder state, the
+summary tables hold exactly the pairs of the *last* run, each row computed from that run's own
+files; nothing of an earlier run is left in a program folder -/
+theorem C14_history {κ : Type} (S : Stats κ) (rs : List (RunSpec κ)) (r : RunSpec κ) (prior : St κ)
+    (hg : GoodProgs r.progs) (hσ : r.σ.Valid) :
+    ((runHistory S (rs ++ [r]) prior).ts).Perm (canonTs S r.W r.progs (List.range r.n)) ∧
+    ((runHistory S (rs ++ [r]) prior).emis).Perm (canonEmis S r.W r.progs (List.range r.n)) ∧
+    (runHistory S (rs ++ [r]) prior).dirs.map (·.1) = r.progs ∧
+    (∀ pd ∈ (runHistory S (rs ++ [r]) prior).dirs, ∀ e ∈ pd.2, isKept e.name = true) := by
+  rw [runHistory_snoc, (runInFolder_eq_runAll S r.W r.progs r.keepAll r.σ r.n _).1]
+  have h := runBatches_inv S r.W r.progs hg r.keepAll r.σ hσ (batchSimulations r.n) 0 _ [] (init_inv S r.W r.progs)
+  rw [List.nil_append, allSims_batchSimulations] at h
+  exact ⟨h.ts, h.emis, h.names, h.kept⟩
+
+/-- why the clean-up matters: a batch loop started in a folder that still holds the summary files
+of an earlier run keeps every one of those rows (they are taken for rows of earlier batches) -/
+theorem uncleared_folder_keeps_stale_rows {κ : Type} (S : Stats κ) (W : Name → Nat → SimOut κ)
+    (progs : List Name) (keepAll : Bool) (σ : Sched κ) (n : Nat) (prior : St κ) :
+    prior.ts <+: (runWithoutInit S W progs keepAll σ n prior).ts ∧
+    prior.emis <+: (runWithoutInit S W progs keepAll σ n prior).emis := by
+  unfold runWithoutInit
+  exact legacy_rows_preserved S W keepAll σ (batchSimulations n) 0
+    (mkProgDirs (progs.filter fun p => !(prior.dirs.map (·.1)).contains p) prior)
+
+/-- a two-run history with a smaller second run: nothing of the first run is left (6 rows); without
+the clean-up the 14 rows of the first run would still be there (20 rows) -/
+example :
+    let S : Stats Nat :=
+      { ts := fun c => [Val.q c], emis := fun c => [Val.q c], est := fun _ => [], rep := fun _ => [],
+        nEmis := 1, nYears := 0, okTs := fun _ => true, okEmis := fun _ => true, okEst := fun _ => true }
+    let r1 : RunSpec Nat := { W := fun _ s => { ts := 100 + s, emis := s, est := none, rep := none },
+                              progs := ["P_A".toList, "P_B".toList], keepAll := true, σ := mixedSched Nat, n := 7 }
+    let r2 : RunSpec Nat := { W := fun _ s => { ts := 900 + s, emis := s, est := none, rep := none },
+                              progs := ["P_B".toList, "P_A".toList], keepAll := false, σ := idSched Nat, n := 3 }
+    let st := runHistory S [r1, r2] { dirs := [("old".toList, [])], ts := [(key "x".toList 0, [])], emis := [] }
+    st.ts.length = 6 ∧ st.dirs.length = 2 ∧ List.lookup (key "P_A".toList 2) st.ts = some [Val.q 902] ∧
+    (runWithoutInit S r2.W r2.progs false (idSched Nat) 3 (runHistory S [r1] (initSt []))).ts.length = 20 := by
+  decide +kernel
+
 /-! ### batching -/
 
 /-- the batch sizes add up to the number of simulations -/
